@@ -174,9 +174,10 @@ def importer(text, case, d):
         return Table.from_tsv(io.StringIO(text), None, None, pf), how
     if how == "readlines":
         return _from_list(io.StringIO(text).readlines(), pf), how
-    p = os.path.join(d, "in.tsv")
+    # (a gzip file is one by content, whatever it is called)
+    p = os.path.join(d, ["in.tsv", "in.txt", "in"][len(text) % 3])
     if how == "gzip":
-        p += ".gz"
+        p += [".gz", ".gz", "", ".GZ"][(len(text) // 3) % 4]
     if len(text) % 3 == 0:
         # the path held (and was loaded with) different content a moment ago
         with (gzip.open(p, "wt", encoding="utf8") if how == "gzip"
